@@ -168,6 +168,17 @@ pub const SECP256R1_B: u32 = 112;
 pub const SECP256K1_B: u32 = 113;
 
 #[contract]
+pub struct BoolIssuer;
+
+#[contractimpl]
+impl BoolIssuer {
+    /// same name and arguments as `ClaimIssuer::is_claim_valid`, but a `bool` result
+    pub fn is_claim_valid(_e: &Env, _identity: Address, claim_topic: u32, _scheme: u32, _sig_data: Bytes, _claim_data: Bytes) -> bool {
+        claim_topic % 2 == 1
+    }
+}
+
+#[contract]
 pub struct IssC;
 
 /// the steps claim_issuer/mod.rs documents, for one verifier
@@ -262,7 +273,7 @@ impl VerC {
 // universe
 // ------------------------------------------------------------------------------------------
 // address indices: 0,1 registries; 2 identity registry storage; 3 verifier; 4,5,6 claim issuer
-// contracts; 7 plain address; 8,9 identity contracts; 10 plain address; 11,12,13 accounts
+// contracts; 7 a contract answering is_claim_valid with a bool (not the interface); 8,9 identity contracts; 10 plain address; 11,12,13 accounts
 const REGS: [usize; 2] = [0, 1];
 const IRS: usize = 2;
 const VER: usize = 3;
@@ -471,7 +482,9 @@ impl Sim {
         for _ in 0..3 {
             u.push(e.register(IssC, ()));
         }
-        u.push(Address::generate(&e));
+        // index 7: an issuer that does NOT follow the ClaimIssuer interface — it answers with a `bool`
+        // instead of returning unit / panicking. Whatever it answers, its claims never count.
+        u.push(e.register(BoolIssuer, ()));
         for _ in 0..2 {
             u.push(e.register(IdC, ()));
         }
@@ -1060,6 +1073,34 @@ fn directed(t: &mut Trace, rng: &mut Rng) {
     s.verify_op(t, 11);
     s.raw_del(t, 8, 5, 1);
     s.verify_op(t, 11);
+
+    // (3a') an issuer that answers is_claim_valid with a bool instead of returning unit / panicking
+    // (index 7): a completed call is not a confirmation — its claims never count, whatever it answers
+    t.seq("directed non-conforming issuer");
+    let mut s = Sim::new();
+    setup_basic(&mut s, t);
+    s.add_topic(t, 0, 1);
+    s.add_topic(t, 0, 2);
+    s.add_issuer(t, 0, 7, &[1, 2]);
+    s.add_issuer(t, 0, 4, &[2]);
+    s.allow_key(t, 4, 1, ED25519, 0, 2);
+    let g2 = s.good_claim(4, 8, 2, 1, TS0 + 5000, b"g2", rng);
+    s.add_claim(t, 8, &g2);
+    // claims naming issuer 7 for topic 1 (it answers `true`) and topic 2 (it answers `false`),
+    // stored by an identity contract that does not ask the issuer
+    let mut n1 = g2.clone();
+    n1.issuer = 7;
+    n1.topic = 1;
+    s.raw_put(t, 8, 7, 1, &n1);
+    s.verify_op(t, 11); // topic 1 has only the non-conforming issuer's claim
+    let mut n2 = g2.clone();
+    n2.issuer = 7;
+    s.raw_put(t, 8, 7, 2, &n2);
+    s.verify_op(t, 11);
+    s.remove_topic(t, 0, 1);
+    s.verify_op(t, 11); // topic 2 alone: issuer 4's genuine claim counts
+    s.remove_issuer(t, 0, 4);
+    s.verify_op(t, 11); // topic 2 with the non-conforming issuer only
 
     // (3b) narrowing: two required topics, each settled by its own issuer; an issuer loses one topic
     t.seq("directed narrowing");
